@@ -25,6 +25,7 @@ type FSEvent struct {
 	Mut  bool   // mutating
 	Err  string // error class or ""
 	Injected bool
+	Gen  int // server generation of the task
 }
 
 // FaultSpec describes an injected failure for operation index N (1-based, as counted by the seam).
@@ -104,7 +105,7 @@ func (f *FS) op(op, path string, mut bool) (ev *FSEvent, fault *FaultSpec, err e
 	t := f.s.cur
 	e := FSEvent{N: f.N, Op: op, Path: path, Mut: mut}
 	if t != nil {
-		e.Task, e.Tag, e.Repos = t.Name, t.Tag, t.Repos
+		e.Task, e.Tag, e.Repos, e.Gen = t.Name, t.Tag, t.Repos, t.Gen
 		if t.Gen < f.LiveGen {
 			e.Err = "detached"
 			if f.KeepLog {
